@@ -295,6 +295,20 @@ class OfRun(object):
                     x = m[arg % n]
                     if o.index(univ.Integer(x)) != m.index(x):
                         return fail('of', 'read-index', 'index(%d) = %s, model %s' % (x, o.index(univ.Integer(x)), m.index(x)), self.hist)
+                elif which == 10 and n:
+                    # index() with a window, as list.index: first position in [a, b), ValueError when there is none
+                    x = m[arg % n]
+                    a, b = sorted(((arg * 3) % (n + 1), (arg * 5) % (n + 1)))
+                    try:
+                        want = m.index(x, a, b)
+                    except ValueError:
+                        want = 'ValueError'
+                    try:
+                        got = o.index(univ.Integer(x), a, b)
+                    except ValueError:
+                        got = 'ValueError'
+                    if got != want:
+                        return fail('of', 'read-index-window', 'index(%d, %d, %d) = %s, model %s' % (x, a, b, got, want), self.hist)
                 elif which == 7 and n:
                     i = arg % n
                     got = o.getComponentByPosition(i, instantiate=False)
@@ -701,6 +715,18 @@ class ChRun(object):
                 return fail('choice', 'content', 'selected value %r, model %r after %s' % (got, m[1], what), self.hist)
             if not e.ok:
                 return fail('choice', 'encode-raises', 'complete value does not encode: %s after %s' % (e.brief(), what), self.hist, e.sig)
+            # nothing is left in the slots of the other alternatives (read without instantiating)
+            try:
+                for i, nm in enumerate(CH_NAMES):
+                    if nm != m[0]:
+                        stale = o.getComponentByPosition(i, default=None, instantiate=False)
+                        if stale is not None and stale.isValue:
+                            return fail('choice', 'stale-alternative', 'alternative %s still holds %s while %s is selected, after %s' % (
+                                nm, stale.prettyPrint()[:40], m[0], what), self.hist)
+                if o.isInconsistent:
+                    return fail('choice', 'inconsistent', 'complete CHOICE value reports isInconsistent = %r after %s' % (o.isInconsistent, what), self.hist)
+            except error.PyAsn1Error as ex:
+                return fail('choice', 'slots-raise', 'reading the slots raised %s after %s' % (harness.exc_sig(ex), what), self.hist, harness.exc_sig(ex))
             ref = x690.der(CH_T, (m[0], m[1]))
             if e.value != ref:
                 return fail('choice', 'encoding', 'DER %s, model %s after %s' % (e.value.hex()[:60], ref.hex()[:60], what), self.hist)
@@ -976,7 +1002,7 @@ def run_shard(desc, seed, tier, col):
             def clone(self, flag):
                 self.do(['clone', flag], True)
 
-            @rule(which=st.integers(0, 9), arg=st.integers(0, 20))
+            @rule(which=st.integers(0, 10), arg=st.integers(0, 20))
             def read(self, which, arg):
                 self.do(['read', which, arg], False)
 
